@@ -1332,6 +1332,8 @@ def _split_args(code, i):
 
 T = FILE
 MUTANTS = [
+    {'name': 'pattern-method-of-the-jacobian-record-marks-inverted', 'edits': [{'file': 'naunet/templateloader.py', 'old': '        vals: list[str]\n        rhs: list[str]\n\n', 'new': '        vals: list[str]\n        rhs: list[str]\n\n        def pattern_text(self) -> str:\n            n = self.nrow\n            marks = ["1" if e == "0.0" else "0" for e in self.rhs]\n            return "\\n".join(" ".join(marks[r * n : (r + 1) * n]) for r in range(n))\n\n', 'count': 1}, {'file': 'naunet/templateloader.py', 'old': '        if jac_pattern:\n            jacrhs = ode.jac.rhs\n            n_eqns = ode.jac.nrow\n\n            pattern = [0 if j == "0.0" else 1 for j in jacrhs]\n\n            rowpattern = []\n            for row in range(n_eqns):\n                rowdata = pattern[row * n_eqns : (row + 1) * n_eqns]\n                rowpattern.append(" ".join(str(e) for e in rowdata))\n\n            pattern = "\\n".join(rowpattern)\n\n            with open(path / "jac_pattern.dat", "w") as outf:\n                outf.write(pattern)\n', 'new': '        if not jac_pattern:\n            return\n        with open(path / "jac_pattern.dat", "w") as outf:\n            outf.write(ode.jac.pattern_text())\n'}], 'rules': ['R5']},
+    {'name': 'netinfo-built-in-a-module-function-from-reaction-list', 'edits': [{'file': 'naunet/templateloader.py', 'old': '\nclass TemplateLoader:\n', 'new': '\ndef _network_info(net):\n    dummy = [Reaction(reaction_type=ReactionType.DUMMY)]\n    return NetworkInfo(net.elements, net.species, net.reaction_list, net.heating, net.cooling, net.grains, net.shielding)\n\n\nclass TemplateLoader:\n'}, {'file': 'naunet/templateloader.py', 'old': '        info = NetworkInfo(\n            network.elements,\n            network.species,\n            network.reactions or [Reaction(reaction_type=ReactionType.DUMMY)],\n            network.heating,\n            network.cooling,\n            network.grains,\n            network.shielding,\n        )\n', 'new': '        info = _network_info(network)\n'}], 'rules': ['R4']},
     {"name": "rowwise-extend-slice-one-column-short", "file": T, "old": '        nnz = 0\n\n        for row in range(n_eqns):\n            spjacrptr.append(nnz)\n            for col in range(n_eqns):\n                elem = jacrhs[row * n_eqns + col]\n                if elem != "0.0":\n                    spjaccval.append(col)\n                    spjacdata.append(f"{elem}")\n                    nnz += 1\n        spjacrptr.append(nnz)\n',
      "new": '        for row in range(n_eqns):\n            spjacrptr.append(len(spjacdata))\n            rowelems = jacrhs[row * n_eqns : (row + 1) * n_eqns - 1]\n            spjaccval.extend(col for col, elem in enumerate(rowelems) if elem != "0.0")\n            spjacdata.extend(elem for _, elem in enumerate(rowelems) if elem != "0.0")\n        nnz = len(spjacdata)\n        spjacrptr.append(nnz)\n', "rules": ["R1"]},
     {"name": "rowwise-extend-values-selected-by-another-sentinel", "file": T, "old": '        nnz = 0\n\n        for row in range(n_eqns):\n            spjacrptr.append(nnz)\n            for col in range(n_eqns):\n                elem = jacrhs[row * n_eqns + col]\n                if elem != "0.0":\n                    spjaccval.append(col)\n                    spjacdata.append(f"{elem}")\n                    nnz += 1\n        spjacrptr.append(nnz)\n',
@@ -1378,6 +1380,16 @@ MUTANTS = [
     {"name": "nequations-macro", "file": MACROS, "old": "#define NEQUATIONS (NSPECIES + THERMAL)", "new": "#define NEQUATIONS (NSPECIES)", "rules": ["R4"]},
 ]
 BENIGN = [
+    {'name': 'pattern-helper-returns-text', 'edits': [{'file': 'naunet/templateloader.py', 'old': '    def render(\n        self,\n        proj_name', 'new': '    @staticmethod\n    def _pattern_text(jac):\n        n = jac.nrow\n        marks = ["0" if term == "0.0" else "1" for term in jac.rhs]\n        lines = [" ".join(marks[r * n : (r + 1) * n]) for r in range(n)]\n        return "\\n".join(lines)\n\n    def render(\n        self,\n        proj_name'}, {'file': 'naunet/templateloader.py', 'old': '        if jac_pattern:\n            jacrhs = ode.jac.rhs\n            n_eqns = ode.jac.nrow\n\n            pattern = [0 if j == "0.0" else 1 for j in jacrhs]\n\n            rowpattern = []\n            for row in range(n_eqns):\n                rowdata = pattern[row * n_eqns : (row + 1) * n_eqns]\n                rowpattern.append(" ".join(str(e) for e in rowdata))\n\n            pattern = "\\n".join(rowpattern)\n\n            with open(path / "jac_pattern.dat", "w") as outf:\n                outf.write(pattern)\n', 'new': '        if jac_pattern:\n            with open(path / "jac_pattern.dat", "w") as outf:\n                outf.write(self._pattern_text(ode.jac))\n'}]},
+    {'name': 'pattern-module-function-write-text', 'edits': [{'file': 'naunet/templateloader.py', 'old': '\n# define in this file to avoid circular import\n', 'new': '\ndef _jac_pattern_lines(rhs, nrow):\n    lines = []\n    for row in range(nrow):\n        rowterms = rhs[row * nrow : (row + 1) * nrow]\n        lines.append(" ".join("0" if t == "0.0" else "1" for t in rowterms))\n    return lines\n\n\n# define in this file to avoid circular import\n'}, {'file': 'naunet/templateloader.py', 'old': '        if jac_pattern:\n            jacrhs = ode.jac.rhs\n            n_eqns = ode.jac.nrow\n\n            pattern = [0 if j == "0.0" else 1 for j in jacrhs]\n\n            rowpattern = []\n            for row in range(n_eqns):\n                rowdata = pattern[row * n_eqns : (row + 1) * n_eqns]\n                rowpattern.append(" ".join(str(e) for e in rowdata))\n\n            pattern = "\\n".join(rowpattern)\n\n            with open(path / "jac_pattern.dat", "w") as outf:\n                outf.write(pattern)\n', 'new': '        if jac_pattern:\n            lines = _jac_pattern_lines(ode.jac.rhs, ode.jac.nrow)\n            with open(path / "jac_pattern.dat", "w") as outf:\n                outf.write("\\n".join(lines))\n'}]},
+    {'name': 'pattern-jac-local', 'file': 'naunet/templateloader.py', 'old': '        if jac_pattern:\n            jacrhs = ode.jac.rhs\n            n_eqns = ode.jac.nrow\n\n            pattern = [0 if j == "0.0" else 1 for j in jacrhs]\n\n            rowpattern = []\n            for row in range(n_eqns):\n                rowdata = pattern[row * n_eqns : (row + 1) * n_eqns]\n                rowpattern.append(" ".join(str(e) for e in rowdata))\n\n            pattern = "\\n".join(rowpattern)\n\n            with open(path / "jac_pattern.dat", "w") as outf:\n                outf.write(pattern)\n', 'new': '        if jac_pattern:\n            jac = ode.jac\n            nrow = jac.nrow\n            flags = [int(j != "0.0") for j in jac.rhs]\n            rowpattern = [" ".join(map(str, flags[row * nrow : (row + 1) * nrow])) for row in range(nrow)]\n            with open(path / "jac_pattern.dat", "w") as outf:\n                outf.write("\\n".join(rowpattern))\n'},
+    {'name': 'netinfo-module-function', 'edits': [{'file': 'naunet/templateloader.py', 'old': '\nclass TemplateLoader:\n', 'new': '\ndef _network_info(net):\n    dummy = [Reaction(reaction_type=ReactionType.DUMMY)]\n    return NetworkInfo(net.elements, net.species, net.reactions or dummy, net.heating, net.cooling, net.grains, net.shielding)\n\n\nclass TemplateLoader:\n'}, {'file': 'naunet/templateloader.py', 'old': '        info = NetworkInfo(\n            network.elements,\n            network.species,\n            network.reactions or [Reaction(reaction_type=ReactionType.DUMMY)],\n            network.heating,\n            network.cooling,\n            network.grains,\n            network.shielding,\n        )\n', 'new': '        info = _network_info(network)\n'}]},
+    {'name': 'macros-nnz-via-length', 'file': 'naunet/templates/base/cpp/include/naunet_macros.h.j2', 'old': '#define NNZ {{ ode.jac.nnz }}', 'new': '#define NNZ {{ ode.jac.vals | length }}'},
+    {'name': 'main-local-neq-constant', 'file': 'naunet/templates/cvode/src/naunet.cpp.j2', 'old': '    cv_y_  = N_VNewEmpty_Serial((sunindextype)NEQUATIONS, cv_sunctx_);\n    cv_a_  = SUNSparseMatrix(NEQUATIONS, NEQUATIONS, NNZ, CSR_MAT, cv_sunctx_);\n', 'new': '    const sunindextype neq = NEQUATIONS;\n    cv_y_  = N_VNewEmpty_Serial(neq, cv_sunctx_);\n    cv_a_  = SUNSparseMatrix(neq, neq, NNZ, CSR_MAT, cv_sunctx_);\n', 'count': 2},
+    {'name': 'main-jinja-macro-create-matrix', 'file': 'naunet/templates/cvode/src/naunet.cpp.j2', 'old': '    cv_a_  = SUNSparseMatrix(NEQUATIONS, NEQUATIONS, NNZ, CSR_MAT, cv_sunctx_);\n', 'new': '    {% set shape = "NEQUATIONS, NEQUATIONS" -%}\n    cv_a_  = SUNSparseMatrix({{ shape }}, NNZ, CSR_MAT, cv_sunctx_);\n', 'count': 2},
+    {'name': 'csr-final-append-iadd', 'file': 'naunet/templateloader.py', 'old': '                    nnz += 1\n        spjacrptr.append(nnz)\n', 'new': '                    nnz += 1\n        spjacrptr += [nnz]\n'},
+    {'name': 'nnz-plus-assign', 'file': 'naunet/templateloader.py', 'old': '                    nnz += 1\n', 'new': '                    nnz = nnz + 1\n'},
+    {'name': 'pattern-text-from-a-method-of-the-jacobian-record', 'edits': [{'file': 'naunet/templateloader.py', 'old': '        vals: list[str]\n        rhs: list[str]\n\n', 'new': '        vals: list[str]\n        rhs: list[str]\n\n        def pattern_text(self) -> str:\n            n = self.nrow\n            marks = ["0" if e == "0.0" else "1" for e in self.rhs]\n            return "\\n".join(" ".join(marks[r * n : (r + 1) * n]) for r in range(n))\n\n', 'count': 1}, {'file': 'naunet/templateloader.py', 'old': '        if jac_pattern:\n            jacrhs = ode.jac.rhs\n            n_eqns = ode.jac.nrow\n\n            pattern = [0 if j == "0.0" else 1 for j in jacrhs]\n\n            rowpattern = []\n            for row in range(n_eqns):\n                rowdata = pattern[row * n_eqns : (row + 1) * n_eqns]\n                rowpattern.append(" ".join(str(e) for e in rowdata))\n\n            pattern = "\\n".join(rowpattern)\n\n            with open(path / "jac_pattern.dat", "w") as outf:\n                outf.write(pattern)\n', 'new': '        if not jac_pattern:\n            return\n        with open(path / "jac_pattern.dat", "w") as outf:\n            outf.write(ode.jac.pattern_text())\n'}]},
     {"name": "csr-rowwise-extend-of-filtered-selections", "file": T, "old": '        nnz = 0\n\n        for row in range(n_eqns):\n            spjacrptr.append(nnz)\n            for col in range(n_eqns):\n                elem = jacrhs[row * n_eqns + col]\n                if elem != "0.0":\n                    spjaccval.append(col)\n                    spjacdata.append(f"{elem}")\n                    nnz += 1\n        spjacrptr.append(nnz)\n',
      "new": '        for row in range(n_eqns):\n            spjacrptr.append(len(spjacdata))\n            rowelems = jacrhs[row * n_eqns : (row + 1) * n_eqns]\n            spjaccval.extend(col for col, elem in enumerate(rowelems) if elem != "0.0")\n            spjacdata.extend(elem for _, elem in enumerate(rowelems) if elem != "0.0")\n        nnz = len(spjacdata)\n        spjacrptr.append(nnz)\n'},
     {"name": "initjac-colvals-printed-by-a-loop-with-separator", "file": JAC, "old": "        {{ ode.jac.cols | map('string') | join(\", \") | stmwrap(80, 8) }}\n",
